@@ -30,7 +30,7 @@ theorem crash_recovery_gen (evs : List Event) :
       Bnd s c done liveL → done = allCmds doneEvs → s.acked = flushCount doneEvs →
       ∀ es, es <+: trace c evs →
         ∃ evs1, evs1 <+: evs ∧
-          Equiv (recover (run s es)) (applyCmds [] (allCmds (doneEvs ++ evs1))) ∧
+          Shape (run s es) (allCmds (doneEvs ++ evs1)) ∧
           (run s es).acked ≤ flushCount (doneEvs ++ evs1) ∧
           flushCount (doneEvs ++ evs1) ≤ (run s es).acked + 1 := by
   induction evs with
@@ -103,6 +103,13 @@ theorem crash_recovery_gen (evs : List Event) :
           by simpa [List.append_assoc] using heq, by simpa [List.append_assoc] using h2,
           by simpa [List.append_assoc] using h3⟩
 
+/-- the structural form of the theorem: the crash state has the `Shape` of a prefix `evs1` of the
+    history (used again by C02 for the record multiplicities of variable-length buckets) -/
+theorem C01_crash_shape (evs : List Event) (es : List Effect) (hes : es <+: trace {} evs) :
+    ∃ evs1, evs1 <+: evs ∧ Shape (run {} es) (allCmds evs1) ∧
+      (run {} es).acked ≤ flushCount evs1 ∧ flushCount evs1 ≤ (run {} es).acked + 1 := by
+  simpa using crash_recovery_gen evs {} {} [] [] [] bnd_init rfl rfl es hes
+
 /-- C01 / C02 / C05 (fixed-length buckets): for EVERY history of writer events (flushes,
     checkpoints, rotations in any order) and EVERY crash point (any prefix `es` of the
     system-call trace), restart recovers exactly the last-writer-wins content of a prefix `evs1`
@@ -112,7 +119,8 @@ theorem C01_crash_recovery (evs : List Event) (es : List Effect) (hes : es <+: t
     ∃ evs1, evs1 <+: evs ∧
       Equiv (recover (run {} es)) (applyCmds [] (allCmds evs1)) ∧
       (run {} es).acked ≤ flushCount evs1 ∧ flushCount evs1 ≤ (run {} es).acked + 1 := by
-  simpa using crash_recovery_gen evs {} {} [] [] [] bnd_init rfl rfl es hes
+  obtain ⟨evs1, hp, hs, h1, h2⟩ := C01_crash_shape evs es hes
+  exact ⟨evs1, hp, shape_recover hs, h1, h2⟩
 
 /-- every acknowledged write is visible after recovery: the recovered value of a slot is the
     payload of the last command for it among a prefix of the history that contains all
